@@ -2,6 +2,8 @@
 # Generates MANIFEST.json from claims/*.json and manifest_meta.json (kept by hand).
 import json, glob, os, subprocess
 meta = json.load(open('/verif/manifest_meta.json'))
+for f in sorted(glob.glob('/verif/meta/*.json')):
+    meta[os.path.basename(f)[:-5]] = json.load(open(f))
 props = [json.loads(l) for l in open('/verif/properties.jsonl')]
 checks, na = [], []
 for p in props:
